@@ -238,6 +238,13 @@ def run(tier, only=None):
     t1(rep, f_fint, f_genc)
     t2(rep, f_foam, f_genc)
     t3(rep, f_fint)
-    t4(rep, tier)
     t5(rep)
+    try:
+        t4(rep, tier)
+    except AnalysisBroken as e:
+        # T4 needs every builtin form to be expressible; when an earlier rule already reports a violation (for example
+        # a table row naming a runtime entry that does not exist, which also breaks T4's probe unit) report that instead
+        if not rep.violations:
+            raise
+        rep.note("T4 not evaluated: %s" % e)
     return rep
